@@ -227,7 +227,7 @@ func checkTraversal(root *newick.Node, nodes []*newick.Node, what string) core.O
 
 func runC19(r *core.Run) {
 	firstCallClause(r, "newick.traversals")
-	defer racePass(r, "race-C19", "PreOrder and PostOrder of one shared tree")
+	racePass(r, "race-C19", "PreOrder and PostOrder of one shared tree")
 
 	N := core.Pick(r, 9, 14)
 	r.Bound("trees", fmt.Sprintf("every ordered tree with 1..%d nodes", N))
